@@ -276,8 +276,7 @@ fn apply_muts(c: &CCase, p: &mut Parts) -> bool {
                 let cur = p.protocol["ibc_token_denom"].as_str().unwrap_or("").to_string();
                 p.protocol["ibc_token_denom"] = json!(match kind % 8 {
                     // the right length and alphabet under another chain's or module's prefix
-                    6 => cur.replacen("ibc/", ["l2/", "move/", "IBC/", "ibc:"][arg as usize % 4], 1),
-                    7 => cur.replacen("ibc/", ["factory/", "erc20/", "cw20:", "evm/"][arg as usize % 4], 1),
+                    6 | 7 => cur.replacen("ibc/", ["l2/", "move/", "factory/", "IBC/"][arg as usize % 4], 1),
                     4 => format!("ibc/{}", cur),
                     5 => cur.replacen("ibc/", "ibc//", 1),
                     0 => BAD_IBC[arg as usize % BAD_IBC.len()].to_string(),
